@@ -220,3 +220,77 @@ func vh_C12_sign() {
 	want := curve.RDecodes(rbytes[:]) && curve.RIsIdentity(curve.RTriple(k, curve.RNeg(curve.Rid(kp.pk.point)), s, curve.RPoint(rbytes[:])))
 	verif.Assert(ok == want, "Verify decodes R, derives the same challenge and evaluates the Schnorr equation")
 }
+
+// ---------------- batch verification ----------------
+//
+// Entries are built through the public decoders from arbitrary bytes, or left uninitialised (kind 1: zero
+// Signature, kind 2: zero PublicKey): every way an entry can be malformed at Add time. Claimed:
+//   * every per-entry result reported by the serial path equals PublicKey.Verify on that entry;
+//   * the summary is false whenever some entry fails single verification ON THE SERIAL PATH or was flagged at
+//     Add; a true summary implies every per-entry result is true;
+//   * VerifyBatchOnly is false for an empty batch and for a batch with an entry flagged at Add.
+// Not claimed (probabilistic): that the random linear combination accepts only valid batches.
+//
+//verif:ob prop=C12,C09 name=sr25519_BatchVerifier mode=bv tags=purego use=gapi,strobe.kf_keccak split=n:0..2;k0:0..2;k1:0..2;which:0..1 allowpanic=delinearization|batch.verification.scalar
+func vh_C12_batch() {
+	n := verif.Case("n")
+	kinds := []int{verif.Case("k0"), verif.Case("k1")}
+	if (n < 2 && kinds[1] != 0) || (n < 1 && kinds[0] != 0) {
+		return
+	}
+	bv := NewBatchVerifier()
+	single := make([]bool, n)
+	flagged := false
+	for i := 0; i < n; i++ {
+		var pkb [32]byte
+		verif.AnyBytes("pk"+string(rune('0'+i)), pkb[:])
+		var sgb [64]byte
+		verif.AnyBytes("sig"+string(rune('0'+i)), sgb[:])
+		var msg [1]byte
+		verif.AnyBytes("msg"+string(rune('0'+i)), msg[:])
+		pk, sig := &PublicKey{}, &Signature{}
+		if kinds[i] != 2 {
+			if err := pk.UnmarshalBinary(pkb[:]); err != nil {
+				pk = &PublicKey{}
+			}
+		}
+		if kinds[i] != 1 {
+			if err := sig.UnmarshalBinary(sgb[:]); err != nil {
+				sig = &Signature{}
+			}
+		}
+		ctx := NewSigningContext([]byte("ctx"))
+		single[i] = pk.Verify(ctx.NewTranscriptBytes(msg[:]), sig)
+		flagged = flagged || pk.point == nil || sig.s == nil || !curve.RDecodes(sig.rCompressed[:])
+		bv.Add(pk, ctx.NewTranscriptBytes(msg[:]), sig)
+	}
+	verif.Assert(bv.anyInvalid == flagged, "Add flags exactly the entries with an uninitialised key/signature or an undecodable R")
+	if verif.Case("which") == 1 {
+		got := bv.VerifyBatchOnly(nil)
+		if n == 0 || flagged {
+			verif.Assert(!got, "VerifyBatchOnly: false for an empty batch and for a batch with a flagged entry")
+		}
+		return
+	}
+	all, valid := bv.Verify(nil)
+	if n == 0 {
+		verif.Assert(!all && valid == nil, "empty batch: (false, nil)")
+		return
+	}
+	verif.Assert(len(valid) == n, "one result per entry")
+	conj := true
+	for i := 0; i < n; i++ {
+		conj = conj && valid[i]
+	}
+	verif.Assert(all == conj, "summary = conjunction of the per-entry results")
+	if !all {
+		ok := true
+		for i := 0; i < n; i++ {
+			ok = ok && valid[i] == single[i]
+		}
+		verif.Assert(ok, "serial path: every per-entry result equals single verification of that entry")
+	}
+	if flagged {
+		verif.Assert(!all, "a batch with a malformed entry is never reported valid")
+	}
+}
